@@ -123,7 +123,8 @@ def table(write=False):
             if any("no-failing-input-found" in x for x in v["violations"]):
                 t += " (obligation broke, no-failing-input-found)"
             now.append(f"{k} {t}")
-        if m["checks"] and all(v["caught"] for v in m["checks"].values()):
+        own = m["checks"].get(f"{m['property']}:quick") or m["checks"].get(f"{m['property']}:thorough")
+        if own and own["caught"]:
             caught_now += 1
         first = ""
         er = m.get("earlier_runs", [])
@@ -140,7 +141,7 @@ def table(write=False):
         else:
             first = "caught" if m["checks"] and all(v["caught"] for v in m["checks"].values()) else ""
         rows.append(f"| {sid} | r{m.get('round', '?')} | {', '.join(x.replace('src/', '') for x in m['files_touched'])} | {m.get('one_line', '')} | {first} | {'; '.join(now)} |")
-    text = f"{n} confirmed seeded changes; first run of the property's quick check: {n - missed_first} caught with a failing input, {missed_first} missed or caught without one; after strengthening: {caught_now} caught.\n\n"
+    text = f"{n} confirmed seeded changes; first run of the property's quick check: {n - missed_first} caught with a failing input, {missed_first} missed or caught without one; after strengthening: {caught_now} caught by the property's own check (entries for other properties' checks are cross-runs of a miss, made before strengthening).\n\n"
     text += "| id | round | files | change | first run | current |\n|---|---|---|---|---|---|\n" + "\n".join(rows)
     if write:
         d = open(os.path.join(VERIF, "DESIGN.md")).read()
